@@ -113,8 +113,15 @@ func (fr *frame) call(c *ssa.Call) Val {
 		fr.in.curFr = fr
 	}
 	if callee == nil {
-		for _, a := range args {
-			fr.havocFresh(a)
+		// a dynamic call the evaluator cannot resolve may write through its
+		// arguments - except an interface method declared in the module itself:
+		// R12 (I2/I3) decides for every implementation in the module that
+		// caller-owned slices and maps are never written, and implementations
+		// outside the module are outside the properties' scope
+		if !(com.IsInvoke() && com.Method.Pkg() != nil && strings.HasPrefix(com.Method.Pkg().Path(), modPath)) {
+			for _, a := range args {
+				fr.havocFresh(a)
+			}
 		}
 		if com.IsInvoke() {
 			recv := fr.eval(com.Value)
